@@ -47,10 +47,12 @@ struct Config {
   std::string cat;  // "bkg" | "dbd"
   std::string name;
   int level = 0, mode = 0;
-  double e1 = -1, e2 = -1; // window (MeV) if e1 >= 0
+  double e1 = -1, e2 = -1; // window (MeV); a negative bound is absent (one-sided window: the other side defaults to 0 / 4.3)
   std::string pre;         // key of a predecessor configuration initialised first on the same objects (dx)
   bool dbd() const { return cat == "dbd"; }
-  bool window() const { return e1 >= 0; }
+  bool window() const { return e1 >= 0 || e2 >= 0; }
+  double lo() const { return e1 >= 0 ? e1 : 0.0; }
+  double hi() const { return e2 >= 0 ? e2 : 4.3; }
   std::string key() const
   {
     char b[256];
@@ -99,8 +101,8 @@ struct RefSide {
     lev = c.dbd() ? c.level : 0;
     mode = c.dbd() ? c.mode : 0;
     if (c.dbd()) {
-      d0ref::g.c_enrange.m0 = c.window() ? c.e1 : 0.0;
-      d0ref::g.c_enrange.m1 = c.window() ? c.e2 : 4.3;
+      d0ref::g.c_enrange.m0 = c.lo();
+      d0ref::g.c_enrange.m1 = c.hi();
       // mode 18 needs the seven NMEs (the dialog reads them from a file): same fixed set on both sides
       auto & n = d0ref::g.c_eta_nme;
       n.m0 = NME[0]; n.m1 = NME[1]; n.m2 = NME[2]; n.m3 = NME[3]; n.m4 = NME[4]; n.m5 = NME[5]; n.m6 = NME[6];
@@ -256,7 +258,7 @@ struct PortSide {
         if (c.dbd()) {
           gen.set_decay_dbd_level(c.level);
           gen.set_decay_dbd_mode((bxdecay0::dbd_mode_type)c.mode);
-          if (c.window()) gen.set_decay_dbd_esum_range(c.e1, c.e2);
+          if (c.window()) gen.set_decay_dbd_esum_range(c.e1 >= 0 ? c.e1 : std::numeric_limits<double>::quiet_NaN(), c.e2 >= 0 ? c.e2 : std::numeric_limits<double>::quiet_NaN());
         }
         gen.initialize(r);
       } else {
@@ -266,8 +268,8 @@ struct PortSide {
           pars.istartbb = 0;
           pars.chi_GTw = NME[0]; pars.chi_Fw = NME[1]; pars.chip_GT = NME[2]; pars.chip_F = NME[3]; pars.chip_T = NME[4]; pars.chip_P = NME[5]; pars.chip_R = NME[6];
           // the caller provides the energy-sum range at every initialisation (as the Fortran caller fills common/enrange/)
-          pars.ebb1 = c.window() ? c.e1 : 0.0;
-          pars.ebb2 = c.window() ? c.e2 : 4.3;
+          pars.ebb1 = c.lo();
+          pars.ebb2 = c.hi();
           bxdecay0::genbbsub(r, ev, 1, c.name, c.level, c.mode, -1, err, pars);
         } else {
           bxdecay0::genbbsub(r, ev, 2, c.name, -1, -1, -1, err, pars);
@@ -483,7 +485,7 @@ static std::string check_c03(const Config & c, const Ev & e, const PortSide & P,
   if (c.window() && n >= 2) {
     double s = kin(e.code[0], e.px[0], e.py[0], e.pz[0]) + kin(e.code[1], e.px[1], e.py[1], e.pz[1]);
     if (c.mode == 10) s = kin(e.code[0], e.px[0], e.py[0], e.pz[0]); // 2nuKb+: one lepton (the second particle is the K X-ray)
-    if (s < (double)(float)c.e1 - 1e-9 || s > (double)(float)c.e2 + 1e-9) {
+    if (s < (double)(float)c.lo() - 1e-9 || s > (double)(float)c.hi() + 1e-9) {
       char b[128];
       snprintf(b, sizeof b, "lepton energy sum %.6f outside window [%g,%g]", s, c.e1, c.e2);
       return b;
